@@ -305,12 +305,21 @@ OUTSIDE_MODEL = {
     "C19h": "tick level computed by multiplying with a cached reciprocal of the tick size: whether that equals price / tick_size (bit for bit) is arithmetic, not shape; the corrected version FC19h has the same shape",
     "C18f": "inheritance rewritten as self-recursion: the rule models the loop form of the chain walk only (the corrected version FC18f is refused in the same way)",
     "C15f": "hook selection memoised per (hook point, time) with invalidation in _add_event: a selection that reads a cache is not the modelled `hooks[None] ++ hooks[time]`",
-    "C04j": "cancel finds the order by an identity scan instead of `in`: the membership test the removal rule is anchored in is gone; whether identity is good enough depends on who may build a Cancel, which is not in the code",
     "C13j": "hook selection memoised per hook point with invalidation in _add_event (as C15f): a selection that reads a cache is not the modelled `hooks[None] ++ hooks[time]`",
     "C01k": "comparator extended by a priority class compared before the price: `priority` is not an atom of the order-only model (the default value makes it invisible, which the table cannot know)",
     "C03f": "reaper rebuilds the queue by a filter over a list left over from the bucket loop: the rules trace single removals (`remove(order)`) to their bucket, a rebuilt queue is not modelled (the first version of the rule reported it for the wrong reason: no remove call found)",
     "C01m": "comparator works on a price sign cached at construction: `_price_sign` is not an atom of the order-only model (that it can go stale when the side is rewritten before acceptance is a fact about other code)",
     "C04n": "heap deletion by moving the last leaf into the hole with an off-by-one bound on the index: arithmetic on positions in the heap array, not shape",
+    "C05j": "settlement netted per agent and applied once per agent after the pass over the fills: the rule decides the fill-by-fill form; whether the netting loses a payment (dict.update over two roles of one agent) is arithmetic on collected values (the corrected FC05j has the same shape)",
+    "C07i": "class look-ups memoised in a module-level table keyed by name and registered classes: a keyed memo is refused, not reported (whether a kept entry can change an outcome is a question about its key; FC18j is a memo of the same shape that is correct)",
+    "C18j": "parsed specifications memoised in a module-level table keyed by id(): as C07i; the corrected FC18j differs only in that a hit is validated against the objects it was parsed from",
+    "C08j": "depth memoised per side with (orders accepted, orders resting) as the key: the getters no longer read the book directly; whether the key changes with every change of the book is not shape (FC08j keys by the price and volume objects themselves)",
+    "C09j": "consultation order drawn lazily by a partial Fisher-Yates shuffle: whether randrange(n) instead of randrange(i, n) still gives a permutation is arithmetic on indices",
+    "C10j": "step records built once per market and re-emitted: whether a kept record still names the running session is a question about its invalidation (FC10j validates, same shape)",
+    "C10n": "pending records processed in batches whose bounds overlap by one: arithmetic on slice bounds",
+    "C11j": "call backs made only for agents found in a table of `listeners` filled at registration: a conditional call back is refused; whether the skipped calls are exactly the no-op ones depends on how the table is filled (FC11j walks the MRO, same shape)",
+    "C11k": "call backs made only if the agent accepts the kind of notification (new optional setting): as C11j",
+    "C14j": "step hooks dispatched only at times found in a set collected at session start: a conditional trigger is refused; whether the skipped steps have no hook depends on how the set is collected (FC14j uses a live view of the registry, same shape)",
 }
 
 # --------------------------------------------------------------------------- seeded patches
